@@ -6,7 +6,7 @@ import os
 VERIF = os.path.dirname(os.path.dirname(os.path.abspath(__file__)))
 
 
-def write(prop, tier, seed, obs, results, kf_lines, wall, nviol):
+def write(prop, tier, seed, obs, results, kf_lines, wall, nviol, skipped=()):
     from vp import shims_list
 
     per = []
@@ -96,6 +96,7 @@ def write(prop, tier, seed, obs, results, kf_lines, wall, nviol):
             "exhaustive": False,
             "per_obligation": per,
             "known_findings_reported": kf_lines,
+            "shards_skipped_for_known_findings": list(skipped),
             "trusted_base": ["CrossHair 0.0.110 proxies", "z3 5.1.0"] + shims_list.SHIMS + ["harness oracles (harness/*.py)"],
         },
         "assumptions": [
